@@ -395,5 +395,5 @@ def run(tier="quick"):
     rep.not_decided = ["bit-identity with a sequential run as such"]
     for m in models:
         rep.configs.append(m.config)
-        rules(rep, m)
+        common.run_rules(rep, m, rules)
     return rep.finish()
